@@ -137,7 +137,10 @@ func aspectAddr(i int) common.Address { return common.BigToAddress(big.NewInt(in
 // fixed set of addresses and storage keys, so a first pass collects every address and key the execution ever
 // mentions and the second, reported pass starts with that set.
 func runScenario(cs *exCase, w *world, u progen.Universe, code0 []byte, debug bool) *exRun {
+	saved := teeTracers
+	teeTracers = nil // extra loggers see the reported pass only
 	first := runScenarioWith(cs, w, u, code0, true, nil, nil)
+	teeTracers = saved
 	if first.pan != "" {
 		return first
 	}
